@@ -14,7 +14,8 @@ ID = 'C19'
 TITLE = 'Clearing a dataset directory removes only dataset files, with consent'
 GEN = ['DeleteRules']
 RULE = ('each case draws a kind (absent/file/folder/link-to-file/link-to-folder/dangling link) for each of the 19 dataset paths, '
-        'an only or skip selection (none, random subset, every single type), force or an answer from a pool; distinct '
+        'an only or skip selection (none, random subset, every single type), force or an answer from a pool; user files alongside, '
+        'some carrying the name a dataset entry has in the OTHER sub-folder (reconstruction/trajectories.txt, sensors/points3d.txt); distinct '
         'non-trivial = distinct (kinds, selection, consent) with at least one existing dataset path')
 ASSUMPTIONS = [
     'os.remove / shutil.rmtree / path.lexists / islink / isfile behave as POSIX documents (observed through snapshots)',
@@ -51,7 +52,10 @@ def type_of(name):
 
 # ---------------------------------------------------------------------------------------------------- sandbox
 
-USER_FILES = ['my_notes.txt', 'sensors/calibration.yaml', 'reconstruction/keypoints_backup/a.kpt', 'images/0.jpg']
+USER_FILES = ['my_notes.txt', 'sensors/calibration.yaml', 'reconstruction/keypoints_backup/a.kpt', 'images/0.jpg',
+              # the user's, although they carry the NAME a dataset entry has in the other sub-folder
+              'reconstruction/trajectories.txt', 'sensors/points3d.txt', 'sensors/keypoints/mine.kpt', 'reconstruction/records_data/mine.jpg',
+              'trajectories.txt', 'matches/mine.matches']
 
 
 def build(case, base):
